@@ -195,3 +195,16 @@ contracts.append(Contract(
              ("stores-curve-points-of-the-mirrored-log-rule",
               "arr2_eq(elems[0]._SingleLayerOperator__log_scheme_m_y, curve_at(elems[0].gamma_space, elems[0].space_interval[0], "
               "elems[0].space_interval[1], self.log_scheme_m.points))")]))
+
+
+REPLAY_C07 = '''
+from vlib.core import Check
+from bounded import relational
+chk = Check("C07", "quick", 0, "other", "replay")
+relational.run(chk, "C07", "quick", 0)
+observed = [o.name for o in chk.obs if o.status == "failed"][:6]
+violated = len(observed) > 0
+'''
+for _c in contracts:
+    if _c.setup is not None:
+        _c.replay_on_unknown = lambda mv, sc, ob: REPLAY_C07
